@@ -27,6 +27,7 @@ def tasks(tier, params):
             dict(service='n3', own='n6', an=[('n4', 'A'), ('n2', 'A')], ar=[('n1', 'A')]),
             dict(service='r', own='n5', an=[('n5', 'A'), ('n3', 'A')], ar=[]),
             dict(service='n1', own='n4', an=[('n4', 'A'), ('n1', 'A')], ar=[('n2', 'A')]),
+            dict(service='n3', own='n6', an=[('n1', 'TXT'), ('n1', 'A')], ar=[]),
         ]
         for i, sc in enumerate(ing):
             out.append(('ingest.%d' % i, {'part': 'ingest', 'sc': sc}))
@@ -34,6 +35,9 @@ def tasks(tier, params):
         for i, sc in enumerate(reply_scenarios('quick')):
             if sc['ops'] and sc['q'] and all(o[0] != 'remove' for o in sc['ops']):
                 out.append(('reply_wire.%d' % i, {'part': 'reply_wire', 'sc': sc}))
+        # a TXT record whose single string was accepted by the validating constructor at the length limit (255 accepted, 256 refused)
+        for n in (255, 256):
+            out.append(('reply_wire.txt%d' % n, {'part': 'reply_wire', 'sc': dict(ops=[('auth', 'n1', 'TXT%d' % n, None)], q=[('n1', 'ANY', 'ANY')])}))
     if part in (None, 'escape'):
         for n in range(0, 4 if tier == 'quick' else 5):
             out.append(('escape.%d' % n, {'part': 'escape', 'n': n}))
@@ -70,8 +74,14 @@ def run_task(prog, tid, params, tier):
              '    let mut recs: Vec<ResourceRecord<\'static>> = Vec::new();']
         n_an = len(sc_['an'])
         for i, (owner, rec) in enumerate(I.recs):
-            L.append('    let r = rec(%s, CLASS::IN, %d, %s, RData::A(A { address: %d }));' % (
-                rs_name(m, pool, owner), VG.ev(m, rec.f[2]), 'true' if VG.ev(m, rec.f[4]) else 'false', VG.ev(m, rec.f[3].f[0].f[0])))
+            if rec.f[3].var == 'TXT':
+                strs = ['.with_char_string(CharacterString::new(&[%s]).unwrap())' % ', '.join(str(VG.ev(m, b)) for b in I.seq_list(c.f[0]))
+                        for c in rec.f[3].f[0].f[0].items]
+                rds = 'RData::TXT(TXT::new()%s)' % ''.join(strs)
+            else:
+                rds = 'RData::A(A { address: %d })' % VG.ev(m, rec.f[3].f[0].f[0])
+            L.append('    let r = rec(%s, CLASS::IN, %d, %s, %s);' % (
+                rs_name(m, pool, owner), VG.ev(m, rec.f[2]), 'true' if VG.ev(m, rec.f[4]) else 'false', rds))
             L.append('    recs.push(r.clone());')
             L.append('    p.%s.push(r);' % ('answers' if i < n_an else 'additional_records'))
         L += ['    let service = %s;' % rs_name(m, pool, sc_['service']), '    let own = %s;' % rs_name(m, pool, sc_['own']),
@@ -148,6 +158,9 @@ def run_task(prog, tid, params, tier):
                 bs += utf8_encode(I, c)
             holder['bytes'] = bs
             s = SliceRef(Ref(Cell(Agg('array', bs), 's')), mk('usize', 0), mk('usize', len(bs)), True)
+            # unescaping an ARBITRARY string (a received instance label: trailing backslash, backslash before a multi-byte
+            # character, ...) must not panic either
+            I.call_function(f_unesc, [s], {})
             e = I.call_function(f_esc, [s], {})
             es = SliceRef(I.new_ref(e, 'e'), mk('usize', 0), mk('usize', len(e.items)), True)
             u = I.call_function(f_unesc, [es], {})
@@ -187,11 +200,18 @@ def run_task(prog, tid, params, tier):
             g = pool.g
             mgr = I.new_ref(I.call_function(f_new, [], {}), 'mgr')
 
-            def rec(owner, k):
+            def rec(owner, k, kind='A'):
+                if kind == 'TXT':
+                    # what an instance without attributes announces (one empty string) plus a short arbitrary string
+                    c0, _ = g.cstr(0)
+                    c1, _ = g.cstr(2)
+                    rd = En('RData', 'TXT', (g.struct('TXT', strings=VecV([c0, c1]), size=mk('usize', 4)),))
+                else:
+                    rd = En('RData', 'A', (g.struct('A', address=g.fresh('u32', 'addr%d' % k)),))
                 return g.struct('ResourceRecord', name=pool.name(owner), **{'class': En('CLASS', 'IN')}, ttl=g.fresh('u32', 'ttl%d' % k),
-                                rdata=En('RData', 'A', (g.struct('A', address=g.fresh('u32', 'addr%d' % k)),)), cache_flush=g.fresh('bool', 'fl%d' % k))
-            an = [rec(o, i) for i, (o, _) in enumerate(sc['an'])]
-            ar = [rec(o, 10 + i) for i, (o, _) in enumerate(sc['ar'])]
+                                rdata=rd, cache_flush=g.fresh('bool', 'fl%d' % k))
+            an = [rec(o, i, kd) for i, (o, kd) in enumerate(sc['an'])]
+            ar = [rec(o, 10 + i, kd) for i, (o, kd) in enumerate(sc['ar'])]
             I.recs = list(zip([o for o, _ in sc['an']] + [o for o, _ in sc['ar']], an + ar))
             hdr = g.struct('Header', id=g.fresh('u16', 'id'), opcode=En('OPCODE', 'StandardQuery'), response_code=En('RCODE', 'NoError'),
                            z_flags=Agg('PacketFlag', (Agg('InternalBitFlags', (mk('u16', 0x8000),)),)), opt=NONE)
@@ -256,6 +276,13 @@ def run_task(prog, tid, params, tier):
                     rd = En('RData', 'A', (g.struct('A', address=g.fresh('u32', 'addr%d' % k)),))
                 elif rtype == 'SRV':
                     rd = En('RData', 'SRV', (g.struct('SRV', priority=mk('u16', 0), weight=mk('u16', 0), port=g.fresh('u16', 'port%d' % k), target=pool.name(extra)),))
+                elif rtype.startswith('TXT') and len(rtype) > 3:
+                    n = int(rtype[3:])
+                    raw = [g.fresh('u8', 'tx') for _ in range(n)]
+                    cs = I.call_function(inherent(prog, 'CharacterString', 'new'), [X.byte_buffer(I, raw, 'txtsrc')], {})
+                    if cs.var != 'Ok':
+                        continue          # refused at construction: nothing is registered
+                    rd = En('RData', 'TXT', (g.struct('TXT', strings=VecV([cs.f[0]]), size=mk('usize', n + 1)),))
                 else:
                     c, _ = g.cstr(1)
                     rd = En('RData', 'TXT', (g.struct('TXT', strings=VecV([c]), size=mk('usize', 2)),))
@@ -309,6 +336,7 @@ def escape_case(bs):
 fn verif_case() {
     let s = String::from_utf8(vec![%s]).unwrap();
     let info = crate::InstanceInformation::new(s.clone());
+    let _ = info.unescaped_instance_name();
     let e = info.escaped_instance_name();
     let back = crate::InstanceInformation::new(e).unescaped_instance_name();
     report(if back == s { vec![] } else { vec!["escape"] });
